@@ -345,6 +345,21 @@ def classify(args):
     return "+".join(sorted(set(k)))
 
 
+def regenerate_all():
+    regenerate()
+
+
+def prebuild():
+    text, rep, _ = regenerate()
+    sigs, consts = rep["sigs"], rep["consts"]
+    inc = os.path.join(vlib.BUILD, "c15_inc")
+    os.makedirs(inc, exist_ok=True)
+    vlib.write_if_changed(os.path.join(inc, "arith_dispatch.inc"), arith_tables.cxx_dispatch(sigs, consts))
+    vlib.cxx_build("h_arith", "h_arith.cpp", ["smt/arith/rational.cpp"], ["smt", "smt/arith"], extra_inc=[inc])
+    vlib.ocaml_build("arith", ["gen/Gen_arith.vo"], arith_tables.extract_v(sigs, consts),
+                     [("arith_io.ml", None), ("arith_dispatch.ml", arith_tables.ocaml_dispatch(sigs, consts)), ("arith_main.ml", None)])
+
+
 # ------------------------------------------------------------------------------------------------
 def run_lines(exe, lines, timeout=300):
     r = vlib.run([exe], stdin="\n".join(lines) + "\n", timeout=timeout)
